@@ -58,6 +58,17 @@ struct PayItem {
 struct Pay {
     long a = 0;
     long b = 0;
+    // identity of the value beyond what operator== compares ("equal but not identical", like a record compared by key
+    // only): carried by copies, moves, assignments and swap, ignored by ==, untouched by set().  0 = not in use.  When a
+    // REGISTERED instance changes its rev the trace gets a marker `prv <name> <rev>` right after the `pwr`.
+    long rev = 0;
+    void take_rev(long r)
+    {
+        if ((r != 0 || rev != 0) && traced()) {
+            verif::emit("prv " + verif::name_of(this) + " " + std::to_string(r));
+        }
+        rev = r;
+    }
     Pay() = default;
     explicit Pay(long v): a(v), b(v) {}
     Pay(std::initializer_list<PayItem> l): a(7770 + long(l.size())), b(7770 + long(l.size())) {}  // NOLINT: visibly not a copy
@@ -96,6 +107,7 @@ struct Pay {
         long v = o.get();
         a = v;
         b = v;
+        rev = o.rev;
     }
     // moves are noexcept and never throw (like every standard container); only COPIES are fault-injection points.
     // A wrapper that derives a noexcept specification from the wrong trait then terminates when a copy throws.
@@ -104,16 +116,19 @@ struct Pay {
         long v = o.get();
         a = v;
         b = v;
+        rev = o.rev;
     }
     Pay& operator=(const Pay& o)
     {
         user_call();
         set(o.get());
+        take_rev(o.rev);
         return *this;
     }
     Pay& operator=(Pay&& o) noexcept
     {
         set(o.get());
+        take_rev(o.rev);
         return *this;
     }
     friend bool operator==(const Pay& x, const Pay& y)
@@ -126,8 +141,12 @@ struct Pay {
         user_call();
         long vx = x.get();
         long vy = y.get();
+        long rx = x.rev;
+        long ry = y.rev;
         x.set(vy);
+        x.take_rev(ry);
         y.set(vx);
+        y.take_rev(rx);
     }
 };
 
